@@ -523,7 +523,10 @@ def r6_global_substitution(cx):
     okl = False
     if il:
         try:
-            okl = literal(cx.repo, il[0].value) == ["127.0.0.1"]
+            v_ = il[0].value
+            while isinstance(v_, ast.Call) and call_name(v_) in ("list", "tuple", "set", "frozenset") and len(v_.args) == 1:
+                v_ = v_.args[0]
+            okl = list(literal(cx.repo, v_)) == ["127.0.0.1"]
         except ValueError:
             okl = False
     cx.require(okl, il[0] if il else init, "the IPv4 ignore list is exactly loopback", construct=short(il[0]) if il else "(none)")
